@@ -44,7 +44,7 @@ class C04Machine(M.MCMachine):
 
     def on_built(self):
         self.style = self.scn["calc"]
-        self.counting = self.style in ("caching", "peratom")
+        self.counting = self.style in ("caching", "peratom", "smeared")
         self.first_step_done = False
         self.verdicts = ""
         self.nontriv = False
@@ -205,7 +205,7 @@ def plan(tier):
 
 
 def run_part(part, seed, shard, nshards, budget):
-    styles = ("caching", "caching", "stateless", "peratom") if part == "model-calcs" else ("emt", "lj")
+    styles = ("caching", "smeared", "stateless", "peratom") if part == "model-calcs" else ("emt", "lj")  # smeared: free_energy != energy
     strat = scenario_strategy(set(budget.get("known_active", [])), styles)
     return hyp.run_machine(lambda sink: M.specialise(C04Machine, sink, strat), budget["n_examples"], budget["steps"], seed, part)
 
